@@ -107,6 +107,15 @@ def C14(tier, rng):
         for _ in range(sz(tier, 12, 60)):
             cs.append(Case('dec.dns %s' % hx(m), 'repeat-dup-keys'))
 
+    # names that are easy to confuse (equal text, different label boundaries; case pairs; non-letter bit-0x20 neighbours) in
+    # one message, encoded MANY times with fresh encoders: an equality that disagrees with its hash makes the table lookup –
+    # and with it the emitted bytes – depend on the per-instance hash seed with a small probability per call
+    for a, b_ in look_alike_name_pairs():
+        m = msg_with([{'ty': 2, 'name': a, 'ttl': 1, 'cls': 1, 'f': [b_]}, {'ty': 5, 'name': b_, 'ttl': 1, 'cls': 1, 'f': [a]},
+                      {'ty': 15, 'name': (b'x',) + a, 'ttl': 1, 'cls': 1, 'f': [1, (b'y',) + b_]}], qs=[{'name': a, 'qtype': 1, 'qclass': 1}])
+        bw, _ = render(m)
+        cs.append(Case('mt.dns 16 %d %s' % (sz(tier, 96, 400), hx(bw)), 'mt-look-alike'))
+
     return cs
 
 # ---------------------------------------------------------------- C15
